@@ -481,8 +481,13 @@ pub fn emit_fn(owner: Option<&str>, name: &str, mut f: syn::ItemFn, contracts: &
     // end marker
     let want_end = poss.iter().any(|p| matches!(p, Pos::End));
     if want_end {
-        if let Some(syn::Stmt::Expr(_, None)) = f.block.stmts.last() {
-            lost(&format!("{}: @end on a function with a tail expression (use @tail)", name));
+        let unit_fn = ret_ty_text.is_none();
+        if let Some(syn::Stmt::Expr(_, semi @ None)) = f.block.stmts.last_mut() {
+            if unit_fn {
+                *semi = Some(Default::default());
+            } else {
+                lost(&format!("{}: @end on a function with a tail expression (use @tail)", name));
+            }
         }
         f.block.stmts.push(mk_macro_stmt("vx_m_end"));
     }
